@@ -1,9 +1,9 @@
 SPECIFICATION Spec
 CONSTANTS
-  Vals <- Sym2
+  Vals <- Sym3
   MinLen = 2
-  OnlyReversals = FALSE
-  MaxLen = 8
+  OnlyReversals = TRUE
+  MaxLen = 9
 INVARIANT FindTurnsAgree
 INVARIANT FourPointIsDefinition
 INVARIANT ThreePointSameBag
